@@ -143,6 +143,22 @@ class Ctx:
                 ok_all = False
         if not names:
             ok_all = False
+        if ok_all and self.tier == "thorough":
+            # independent re-check of the compiled property file and everything it depends on
+            mod = "RV." + rel[:-2].replace("/", ".")
+            with open(os.path.join(COQ, ".lock"), "w") as lk:
+                fcntl.flock(lk, fcntl.LOCK_EX)
+                sh(["timeout", "900", "make", rel + "o"], cwd=COQ, timeout=930)
+            rc2, out2 = sh(["timeout", "1500", "coqchk", "-o", "-silent", "-Q", ".", "RV", mod], cwd=COQ, timeout=1530)
+            m = re.search(r"\* Axioms:(.*?)\n\s*\n\s*\*", out2, re.S)
+            axioms = m.group(1).strip() if m else "?"
+            self.notes.append("coqchk -o %s: rc=%d axioms=%s" % (mod, rc2, axioms[:600]))
+            self.trusted.append("coqchk -o %s (independent checker) reports axioms: %s" % (mod, axioms[:600]))
+            bad_flags = re.findall(r"relying on type-in-type: (?!<none>)|unsafe \(co\)fixpoints: (?!<none>)|positivity is assumed: (?!<none>)", out2)
+            if rc2 != 0 or bad_flags:
+                ok_all = False
+                self.obligations.append({"name": "coqchk " + mod, "file": rel, "ok": False, "assumptions": None})
+                out += "\n[coqchk]\n" + out2[-2000:]
         return ok_all, out
 
     def coq_eval(self, name, text, timeout=600):
